@@ -484,6 +484,29 @@ func (a *fnA) retSites() []retSite {
 			}
 		}
 		if len(pending) == 0 {
+			// return φ(n1, n2), φ(err1, err2): the operands of two φ-nodes of one
+			// block are correlated per incoming edge, which a join of facts
+			// loses; judge the return once per edge instead
+			var phiBlk *ssa.BasicBlock
+			nphi := 0
+			for _, v := range vals {
+				if ph, ok := v.(*ssa.Phi); ok && ph.Block() == b {
+					phiBlk = b
+					nphi++
+				}
+			}
+			if phiBlk != nil && nphi >= 2 {
+				for i, pr := range b.Preds {
+					nv := append([]ssa.Value(nil), vals...)
+					for k, v := range nv {
+						if ph, ok := v.(*ssa.Phi); ok && ph.Block() == b {
+							nv[k] = ph.Edges[i]
+						}
+					}
+					out = append(out, retSite{r, pr, nv})
+				}
+				continue
+			}
 			out = append(out, retSite{r, b, vals})
 			continue
 		}
